@@ -17,7 +17,7 @@ import (
 )
 
 func init() {
-	Register(&PropDef{ID: "C13", Run: c13, MaxSim: 6 * time.Hour})
+	Register(&PropDef{ID: "C13", Run: c13, MaxSim: 6 * time.Hour, PanicIsViolation: true})
 }
 
 var c13causes = []string{"peer-eof", "peer-reset", "read-error", "write-error", "short-write", "peer-stops-reading", "local-close", "handler-stop", "acceptor-listener-error"}
@@ -234,7 +234,9 @@ func c13(w *World) {
 	case "write-error", "short-write":
 		fired = w.Faults["write_error"]+w.Faults["short_write"] > 0
 	case "peer-stops-reading":
-		fired = w.Faults["write_deadline"] > 0
+		// a logged-on session writes at least a Heartbeat every interval: the write deadline must
+		// then end the connection; before the logon completes the library may have nothing to write
+		fired = w.Faults["write_deadline"] > 0 || point == "logged-idle" || point == "mid-traffic"
 	}
 	if !fired {
 		// the library never wrote after the fault was armed (e.g. before logon): nothing ended
